@@ -8,6 +8,15 @@ CHECKS = {
               'The same C text is run exhaustively (bits<=8, all a,b) against the spec and against the generated model.'),
         note=('Trusted: Coq kernel, translators/cast.py on clang\'s typed AST, extraction+OCaml driver, gcc. The long-stream / queue wrap-around clause is exercised end to end by the thorough tier only '
               '(long encode decoded and monitored), not proved of the whole encoder.')),
+    'C25': dict(
+        category='proof', design_ref='DESIGN.md §6 C25',
+        technique='Coq theorems (induction over arbitrary operation lists) on an executable range-coder model + byte-exact differential run against the real writer and reader',
+        text=('ec_roundtrip: for every list of symbol/boolean operations over valid inverse CDFs (2..16 symbols), with or without adaptation, of any length, the model reader applied to the bytes the model writer emits '
+              'returns exactly the written symbols and ends with exactly the writer\'s probability tables; tell_covers_bytes: emitted bytes = ceil(tell/8). The model computes thresholds, termination value, byte output, tell and '
+              'CDF adaptation exactly as the C does; it is tied to /repo by comparing bytes, tell after every op, decoded symbols and both tables with the real writer (EbBitstreamUnit.c, aom_write_symbol/update_cdf) '
+              'and the real reader (EbDecBitstreamUnit.h/EbDecBitReader.h) on thousands of generated op lists plus an exhaustive small space; the property is also evaluated directly on the real coder\'s outputs.'),
+        note=('Trusted: Coq kernel; extraction (ExtrOcamlBasic) + OCaml driver; gcc. The model has unbounded-precision low/dif; that the 32-bit windows, the pre-carry buffer and carry propagation of the C implement it '
+              'is established by the byte-exact correspondence (not by a refinement theorem). Validity of adapted tables (ops_ok) is a hypothesis decided on every generated case by the extracted ops_okb.')),
 }
 
 NOT_BUILT_REASON = 'check not built yet in this development (work in progress); no claim is made'
